@@ -6,11 +6,13 @@ splits with regexes and pops runs off lists):
 * ``compare(a, b)`` -- a line-by-line port of dpkg ``lib/dpkg/version.c`` (``order()``,
   ``verrevcmp()``, ``dpkg_version_compare()``) written with index arithmetic over the strings,
   including dpkg's digit-by-digit number comparison (skip zeros, remember the first differing
-  digit, the longer run wins).
+  digit, the longer run wins) -- so digit runs of any length are compared exactly, no integer
+  conversion is involved (the epoch, an ``int`` in dpkg, is compared the same way).
 * ``sortkey(v)`` / ``key_compare(ka, kb)`` -- each version becomes
   ``(epoch, flat(upstream), flat(revision))`` where ``flat`` is the sequence of elementary
   quantities dpkg looks at, in order: the ``order`` of every character of a non-digit run, a
-  ``0`` terminator, the value of the following digit run, and so on; trailing zeros are stripped.
+  ``0`` terminator, the value of the following digit run (an exact Python integer of arbitrary
+  size, see ``number``), and so on; trailing zeros are stripped.
   Comparison is lexicographic on the zero-extended sequences.  That is a total preorder on
   versions by construction (a lexicographic order on sequences of integers), and two versions are
   equivalent exactly when their stripped keys are identical -- which is what the hash clause needs.
@@ -108,12 +110,11 @@ def compare(a, b):
     """-1, 0, 1 as dpkg_version_compare orders the version strings a and b."""
     ea, ua, ra = split(a)
     eb, ub, rb = split(b)
-    na = int(ea) if ea is not None else 0
-    nb = int(eb) if eb is not None else 0
-    if na > nb:
-        return 1
-    if na < nb:
-        return -1
+    # the epoch is a number of any size here (dpkg itself stops at INT_MAX): compared as a digit
+    # run, i.e. digit by digit like every other number, never through a machine integer
+    rc = verrevcmp(ea or "", eb or "")
+    if rc:
+        return sign(rc)
     rc = verrevcmp(ua, ub)
     if rc:
         return sign(rc)
@@ -132,6 +133,16 @@ def _rank(c):
     return ord(c) + 256
 
 
+def number(digits):
+    """Exact value of a digit string of any length (int() itself refuses more than
+    sys.get_int_max_str_digits() characters at once)."""
+    n = 0
+    for k in range(0, len(digits), 1000):
+        chunk = digits[k:k + 1000]
+        n = n * 10 ** len(chunk) + int(chunk)
+    return n
+
+
 def flat(part):
     out = []
     n = len(part)
@@ -144,7 +155,7 @@ def flat(part):
         k = i
         while i < n and part[i] in DIGITS:
             i += 1
-        out.append(int(part[k:i]) if i > k else 0)
+        out.append(number(part[k:i]) if i > k else 0)
     while out and out[-1] == 0:
         out.pop()
     return tuple(out)
@@ -152,7 +163,7 @@ def flat(part):
 
 def sortkey(v):
     e, u, r = split(v)
-    return (int(e) if e is not None else 0, flat(u), flat(r or ""))
+    return (number(e) if e is not None else 0, flat(u), flat(r or ""))
 
 
 def _cmp_padded(x, y):
@@ -203,7 +214,7 @@ class DpkgBinary(object):
     def comparable(v):
         """Can this (valid) version be handed to ``dpkg --compare-versions``?"""
         e = split(v)[0]
-        return "\x00" not in v and (e is None or int(e) <= INT_MAX)
+        return "\x00" not in v and (e is None or number(e) <= INT_MAX)
 
     def holds(self, a, op, b):
         """True/False for ``dpkg --compare-versions a op b``; ModelError if dpkg rejects the syntax."""
